@@ -9,6 +9,7 @@ RULE = ('exhaustive: every non-constant series over {-2..2} up to length 6 (quic
 TRUSTED = [
     'Coq 8.16.1 kernel + vm_compute',
     'declarative model coq/model/M_peaks.v (peaks = filter of indices by a local test; selection by parity as coded); tie = exhaustive + random correspondence of this run (model/K_peaks.v)',
+    'literal statement-by-statement transcription of the ediff1d/where/take pipeline coq/model/M_peaks_pipeline.v, PROVED equal to the declarative model for every non-constant series over R (props/Prop_C11_pipeline.v); the same cases are also compared with it (chk_peaks_pipeline, chk_clean_pipeline), so what remains trusted is reading the transcription against the Python source',
     'float products that underflow (|d1*d2| < 2^-1074) are outside every generator (DESIGN 2.2)',
     'Python harness',
 ]
@@ -21,11 +22,29 @@ def nontrivial(xs):
     return bool(np.any(d[1:] * d[:-1] < 0) or np.any(np.diff(xs) == 0))
 
 
+def as_pipeline(cases):
+    """the same cases, labelled for the comparison with the literal pipeline transcription"""
+    return [Case(c.coq, c.replay, c.site, nontrivial=c.nontrivial, klass=c.klass + '/pipeline') for c in cases]
+
+
 def run(rep, rng, tier):
-    from eqsig.fns.peaks_and_crossings import get_peak_array_indices, get_n_cyc_array
+    from eqsig.fns.peaks_and_crossings import get_peak_array_indices, get_n_cyc_array, clean_out_non_changing
     rep.prove('Prop_C11')
+    rep.prove('Prop_C11_pipeline')
     L = 6 if tier == 'quick' else 8
-    pk, pkq, nc = [], [], []
+    pk, pkq, nc, cl = [], [], [], []
+
+    def add_clean(xs):
+        # intermediate arrays of the pipeline (cleaned_values, non_zero_indices), including the duplicated index 0
+        r = core.guarded_pure(clean_out_non_changing, np.array(xs, dtype=float))
+        site = 'clean_out_non_changing'
+        args = {'values': list(map(float, xs))}
+        if isinstance(r, ImplError):
+            rep.violation(site, {'function': site, 'args': args, 'impl_error': str(r)})
+            return
+        cv, nzi = [float(v) for v in r[0]], [int(i) for i in r[1]]
+        cl.append(Case('(%s, %s, %s)' % (qlist(xs), qlist(cv), natlist(nzi)), {'function': site, 'args': args, 'impl': [cv, nzi]}, site,
+                       nontrivial=nontrivial(xs), klass=site + '/pipeline'))
 
     def add_peaks(xs, pt, exact_int=True):
         r = core.guarded_pure(get_peak_array_indices, np.array(xs, dtype=float), ptype=PT[pt])
@@ -55,6 +74,7 @@ def run(rep, rng, tier):
     for xs in gens.all_series(range(-2, 3), 2, L):
         add_peaks(xs, 0)
         if len(xs) <= L - 1:
+            add_clean(xs)
             add_peaks(xs, 1)
             add_peaks(xs, 2)
         if len(xs) <= L - 2:
@@ -67,6 +87,8 @@ def run(rep, rng, tier):
         xs = gens.plateau_series(rng, n, levels=rng.choice([1, 2, 5]), p_flat=rng.choice([0.2, 0.5, 0.8]),
                                  offset=rng.choice([0, 0, 3, -4, 100]))
         add_peaks(xs, k % 3)
+        if k % 3 == 0:
+            add_clean(xs)
         if k % 4 == 0 and n <= 300:
             add_ncyc(xs, rng.choice(['all', 'switched']), rng.choice(['origin', 'peak']))
     # amplitude scales: tiny (2^-40) to huge (2^40) copies of integer series, and two-scale series
@@ -94,6 +116,10 @@ def run(rep, rng, tier):
     rep.correspond('model.K_peaks', 'chk_peaks', pk, max_cases=4000)
     rep.correspond('model.K_peaks', 'chk_peaks_q', pkq)
     rep.correspond('model.K_peaks', 'chk_ncyc', nc, max_cases=2000)
+    # the same cases against the literal transcription of the numpy pipeline (proved equal to the model in Prop_C11_pipeline)
+    rep.correspond('model.K_peaks', 'chk_peaks_pipeline', as_pipeline(pk), max_cases=4000)
+    rep.correspond('model.K_peaks', 'chk_peaks_pipeline_q', as_pipeline(pkq))
+    rep.correspond('model.K_peaks', 'chk_clean_pipeline', cl, max_cases=4000)
 
 
 def finish(rep):
